@@ -644,8 +644,7 @@ class C13Screening:
         V = []
         if not o.get("include_screening"):
             A = np.asarray(cur["out"]["induced_vector_potential"])
-            seeded = sim.seed_solution is not None
-            if np.any(A != 0) and not seeded:
+            if np.any(A != 0):
                 V.append(Violation("induced-nonzero", f"step {cur['step']}: screening disabled but the induced vector potential is non-zero (max {np.max(np.abs(A)):.3g})", step=cur["step"]))
             return V
         tol = o.get("screening_tolerance", 1e-3)
